@@ -19,7 +19,6 @@ import time
 
 VERIF = os.path.dirname(os.path.dirname(os.path.abspath(__file__)))
 HARNESS_DIR = os.path.join(VERIF, "harness")
-HARNESS_BIN = os.path.join(HARNESS_DIR, "target", "release", "vharness")
 SPEC = os.path.join(VERIF, "spec")
 TLA_JAR = "/opt/veriftools/tla/tla2tools.jar"
 TLA_CP = TLA_JAR + ":/opt/veriftools/tla/CommunityModules-deps.jar"
@@ -39,6 +38,7 @@ class Ctx:
         self.tier = tier
         self.seed = seed
         self.level = level
+        self.crate = pid.lower()
         self.t0 = time.time()
         self.work = os.path.join(VERIF, "work", "%s-%s" % (pid, tier))
         shutil.rmtree(self.work, ignore_errors=True)
@@ -78,7 +78,7 @@ class Ctx:
         lock_dst = os.path.join(HARNESS_DIR, "Cargo.lock")
         if not os.path.exists(lock_dst) and os.path.exists(lock_src):
             shutil.copy(lock_src, lock_dst)
-        p = subprocess.run(["cargo", "build", "--release", "--offline"], cwd=HARNESS_DIR,
+        p = subprocess.run(["cargo", "build", "--release", "--offline", "-p", self.crate], cwd=HARNESS_DIR,
                            env=env, stdout=subprocess.PIPE, stderr=subprocess.STDOUT, text=True)
         if p.returncode != 0:
             log(p.stdout[-6000:])
@@ -91,7 +91,7 @@ class Ctx:
         env["VERIF_TIER"] = self.tier
         t = time.time()
         try:
-            p = subprocess.run([HARNESS_BIN] + [str(a) for a in args], env=env,
+            p = subprocess.run([os.path.join(HARNESS_DIR, "target", "release", self.crate)] + [str(a) for a in args], env=env,
                                stdout=subprocess.PIPE, stderr=subprocess.PIPE, text=True,
                                timeout=timeout)
         except subprocess.TimeoutExpired:
